@@ -146,11 +146,11 @@ CHECKS = {
         "subs": [
             {"name": "determinism", "bin": "c04_determinism", "variant": "mock",
              "also_build": [{"variant": "seq", "bin": "c04_determinism"}],
-             "env": {"VERIF_C04_SEQ": "/verif/build/seq/bin/c04_determinism", "VERIF_C04_MAXSEG": "256"},
+             "env": {"VERIF_C04_SEQ": "{VERIF}/build/seq/bin/c04_determinism", "VERIF_C04_MAXSEG": "256"},
              "quick": {"n": 640, "size": 100}, "thorough": {"n": 40000, "size": 150, "env": {"VERIF_C04_MAXSEG": "512"}}},
             {"name": "determinism-tbb", "bin": "c04_determinism", "variant": "par", "search_sub": "determinism",
              "also_build": [{"variant": "seq", "bin": "c04_determinism"}],
-             "env": {"VERIF_C04_SEQ": "/verif/build/seq/bin/c04_determinism", "VERIF_C04_MAXSEG": "256"},
+             "env": {"VERIF_C04_SEQ": "{VERIF}/build/seq/bin/c04_determinism", "VERIF_C04_MAXSEG": "256"},
              "quick": {"n": 160, "size": 100, "procs": 4}, "thorough": {"n": 6000, "size": 150, "procs": 4, "env": {"VERIF_C04_MAXSEG": "512"}}},
         ],
         "assumptions": ["mock TBB is single-threaded: dependence on chunking/order/worker slot/reduction tree is decided, data races inside loops are only sampled by the real-TBB sub-check (worker counts 1,2,3,5,8,16)",
